@@ -55,10 +55,13 @@ def real_tokens(text):
     return out
 
 
-def keyword_constants():
+def keyword_constants(order=None):
+    """order: indices into the registered dictionaries (a reconfigured lexer registers them in this order)"""
     import re
     from sqlparse import keywords as K
     dicts = extract.keyword_dicts()
+    if order is not None:
+        dicts = [dicts[i] for i in order]
     # dedicated rules that precede the generic word rule and match a whole dictionary word
     idx = [i for i, (rx, tt) in enumerate(K.SQL_REGEX) if tt is K.PROCESS_AS_KEYWORD][0]
     pre = [(re.compile(rx, re.IGNORECASE | re.UNICODE), str(tt)) for rx, tt in K.SQL_REGEX[:idx]]
@@ -150,6 +153,30 @@ def run(ctx):
             body = r['text'][r['lo'] - 1:r['hi']]
             if any(s in body[1:-1] for s in ('semi', 'sq', 'dq', 'bt', 'dollar', 'slash', 'dash', 'lf', 'hash')):
                 ctx.nontrivial((r['kind'], tuple(r['text'])))
+    # long bodies: "whatever the body contains" includes how much - one instance of every region kind is pumped right
+    # behind its opener with a neutral filler (no delimiter of any kind in it, but semicolons) past powers of two
+    OPENER = {'str': 1, 'dqname': 1, 'btname': 1, 'cmtm': 2, 'cmt1': 2, 'dollar': 2, 'dollartag': 3, 'cmt1cr': 2, 'cmt1hash': 2,
+              'hint1': 3, 'hint1cr': 3, 'hintm': 3}
+    done = set()
+    for i in range(len(meta)):
+        k = meta[i]['kind']
+        if k in done or k not in OPENER:
+            continue
+        done.add(k)
+        base, reg = meta[i]['text'], traces[i]['region']
+        for size in ((66000,) if quick else (5000, 66000, 140000)):
+            fill = ';x ' * (size // 3)
+            at = reg['lo'] - 1 + OPENER[k]
+            text = base[:at] + fill + base[at:]
+            tr = rec.record(text, len(traces))
+            tr['region'] = {'lo': reg['lo'], 'hi': reg['hi'] + len(fill), 'ty': reg['ty']}
+            for e in tr['ev']:
+                e.pop('ty', None)
+            traces.append(tr)
+            meta.append({'kind': k, 'text': text, 'symbols': meta[i]['symbols'] + ['<pumped %d>' % size]})
+            ctx.evals()
+            ctx.nontrivial((k, 'pumped', size))
+    ctx.cov['pumped_region_kinds'] = sorted(done)
     for m in meta[:3]:
         ctx.sample(m)
     rej = tracecheck.validate(ctx, 'TraceLexScan', traces, label='TraceLexScan_C14')
@@ -189,6 +216,40 @@ def run(ctx):
                                    'tags': ['c14:keyword', 'word:' + w]},
                                   'tokenize(%r): word %s should be one %s token, got %s' % (l + sp + r, w, ty, toks))
         ctx.nontrivial(('kw', w))
+    # ---- the same claim for reconfigured lexers: private Lexer objects with the dictionaries registered in another
+    # order / only some of them (Lexer.clear, set_SQL_REGEX, add_keywords) must classify by THEIR first dictionary
+    from sqlparse import keywords as K
+    from sqlparse.lexer import Lexer
+    alld = extract.keyword_dicts()
+    nd = len(alld)
+    for order in ([list(range(nd))[::-1], [0], [nd - 1, 0]] if nd > 1 else []):
+        ktext2, _, _ = keyword_constants(order)
+        mc2 = '---- MODULE MC_KeywordTable ----\nEXTENDS KeywordTable\n' + ktext2 + '====\n'
+        kr2 = tlc.run(ctx.workdir, 'MC_KeywordTable', kcfg, extra_modules={'MC_KeywordTable': mc2}, workers=1,
+                      label='KeywordTable_%s' % '_'.join(map(str, order)), coverage=False, timeout=900)
+        ctx.add_tlc(kr2, 'KeywordTable: dictionaries registered in order %s' % order)
+        table2 = kr2.printed[0] if kr2.printed else {}
+        lx = Lexer()
+        lx.clear()
+        lx.set_SQL_REGEX(K.SQL_REGEX)
+        for i in order:
+            lx.add_keywords(alld[i][1])
+        allwords = sorted({w for _, d in alld for w in d})
+        for w in allwords:
+            if not wordrule.match(w):
+                continue
+            ty = table2[w]['ty'] if w in table2 else 'Token.Name'
+            if w in ded:
+                ty = ded[w]
+            for sp in (w.upper(), w.lower()):
+                toks = [(str(tt), v) for tt, v in lx.get_tokens(' ' + sp + ' ')]
+                mid = [t for t in toks if t[1].upper() == w.upper()]
+                nkw += 1
+                ctx.evals()
+                if not (len(mid) == 1 and mid[0][0] == ty):
+                    ctx.violation({'word': w, 'spelling': sp, 'context': [' ', ' '], 'expected': ty, 'tokens': toks, 'order': order,
+                                   'clause': 'keyword-classified-by-first-dictionary-of-reconfigured-lexer', 'tags': ['c14:keyword-reconf', 'word:' + w]},
+                                  'private Lexer with dictionaries %s: word %s should be one %s token, got %s' % (order, sp, ty, toks))
     ctx.cov['keyword_probes'] = nkw
     ctx.cov['dedicated_rule_words'] = sorted(ded)
     ctx.assumptions += ['class representatives/members of lexclasses.py partition the characters as the rule table does (interchangeability is checked)',
